@@ -26,5 +26,7 @@ Definition run (c : sx) : sx :=
   | L [A 32; arg] => run_wother true arg
   | L [A 33; arg] => run_wother false arg
   | L [A 34; arg] => run_wassert_applies arg
+  | L [A 35; arg] => run_wlayer_histories arg
+  | L [A 36; arg] => run_wdiagram arg
   | _ => sx_err
   end.
